@@ -84,8 +84,11 @@ def check(case, acc, tmp):
         invs = [case['inv0'], case.get('inv1'), inv2][:k]
         for mdname, mdcfg in MDCFG.items():
             for order in (itertools.permutations(range(k)) if mdname == 'none' else [tuple(range(k))]):
-                for entry in (('Table.concat', 'biom.concat', 'Table.concat:csc') + (('single',) if k == 2 else ())):
+                for entry in (('Table.concat', 'biom.concat', 'Table.concat:csc', 'biom.concat:positional') +
+                              (('single',) if k == 2 else ())):
                     lay = 'csr'
+                    if entry == 'biom.concat:positional' and (mdname != 'none' or order != tuple(range(k))):
+                        continue
                     if entry.endswith(':csc'):
                         # the same operands after each was read per sample (column-compressed storage)
                         if mdname != 'none' or order != tuple(range(k)):
@@ -109,6 +112,8 @@ def check(case, acc, tmp):
                             R = reals[0].concat(others, axis=axis)
                         elif entry == 'single':
                             R = reals[0].concat(reals[1], axis=axis)
+                        elif entry == 'biom.concat:positional':
+                            R = biom.concat(reals, axis)          # the axis given positionally
                         else:
                             R = biom.concat(reals, axis=axis)
                     except Exception as e:
